@@ -56,6 +56,8 @@ def handle (op : String) (args : List String) : Option String :=
   | "handler.matchkind", [k, d] => do pure (toString (matchKind (← parseKind k) (← ofHex d)))
   | "handler.protect", [k, pub, privs, sym, syms, d, rnd] => do
       pure (outHex (protect C (← parseKV pub privs sym syms) (← parseKind k) (← ofHex d) (← ofHex rnd)))
+  | "handler.protectcfg", [k, pub, privs, sym, syms, d, rnd] => do
+      pure (outHex (protect C (← parseKV pub privs sym syms) (← parseKind k) (← ofHex d) (← ofHex rnd)))
   | "handler.reveal", [pub, privs, sym, syms, d] => do
       pure (outHex (reveal C (← parseKV pub privs sym syms) (← ofHex d)))
   | "detector.oncolumn", [pub, privs, sym, syms, d] => do
